@@ -12,7 +12,7 @@ MIN_NONTRIVIAL = {"quick": 2000, "thorough": 30000}
 BLOB = (400, 1500)
 RULE = ("Hypothesis byte-backed generator: tables of 2-9 commands from shared stems in 1-3 groups (handler subsets, 0-2 variables with callbacks, only_test, "
         "implicit-write, need_all_vars, initially disabled commands/groups) and a history of 3-10 lines; between lines - while the parser is quiescent - any subset of command "
-        "and group disable flags is flipped (disabled, re-enabled later). One case in eight registers one command array through two groups of which exactly one is enabled (their two group flags are not flipped). One case in eight runs in a fresh world process after another parser instance with a different table has been used (hidden state across cat_init calls). Lines address commands by exact name, other case, abbreviation, implicit write and "
+        "and group disable flags is flipped (disabled, re-enabled later). A quarter of the commands carry a description; one case in ten registers a disabled command with an EMPTY name and a run handler and sends bare AT lines. One case in eight registers one command array through two groups of which exactly one is enabled (their two group flags are not flipped). One case in eight runs in a fresh world process after another parser instance with a different table has been used (hidden state across cat_init calls). Lines address commands by exact name, other case, abbreviation, implicit write and "
         "all four request forms with valid arguments. Oracle per line, with the flag state at that time: the callbacks fired (command identity and kind) equal "
         "what the Resolver over enabled commands plus Availability allow; a gated request is ERROR with no callback; variable storage changes only for the "
         "resolved command. Non-trivial = some line's typed name matches (exactly or as a prefix) a currently disabled command, or requests a form of an "
